@@ -129,6 +129,7 @@ def make_threading_shim(H):
     class TCondition:
         def __init__(self, lock=None):
             self._c = _real_threading.Condition(lock)
+            self._forced_waiters = []
 
         def _snap(self):
             o = H.owner
@@ -166,6 +167,23 @@ def make_threading_shim(H):
         def wait(self, timeout=None):
             H.gate("wait")
             H.ev("wait")
+            if H.ctl is not None and H.ctl.active and timeout is None:
+                # controlled mode: same protocol as threading.Condition.wait (waiter event, release,
+                # block, re-acquire) but the re-acquire happens only when the behaviour takes the
+                # "woke" step, so the notifier (or anyone else) may win the lock first
+                w = _real_threading.Event()
+                self._forced_waiters.append(w)
+                self._c.release()
+                ok = w.wait(WATCHDOG)
+                if ok:
+                    H.gate("woke")
+                self._c.acquire()
+                if not ok:
+                    H.hung = True
+                    H.ev("hang", args=["cond.wait"])
+                    raise Hang("condition wait never notified")
+                H.ev("woke")
+                return True
             r = self._c.wait(WATCHDOG if timeout is None else timeout)
             if timeout is None and not r:
                 H.hung = True
@@ -179,6 +197,8 @@ def make_threading_shim(H):
         def notify(self, n=1):
             H.gate("notify")
             H.ev("notify")
+            if self._forced_waiters:
+                self._forced_waiters.pop(0).set()
             self._c.notify(n)
 
         def notify_all(self):
